@@ -497,6 +497,10 @@ def pack2d(RVARA, verbose=False):
     # positive or whole number scaling round up for lower precision
     if SEXP >= 0.0 or (SEXP % 1.0) == 0.0:
         NEXP = NEXP + 1
+    # leave head room for the carried half step: a difference of more than
+    # 127 steps would be clipped (descending) or wrap around the byte
+    if RMAX * np.float32(2.0**(7 - NEXP)) > 127.0:
+        NEXP = NEXP + 1
     # precision range is -127 to 127 or 254
     PREC = np.float32((2.0**NEXP) / 254.0)
     SCEXP = np.float32(2.0**(7 - NEXP))
